@@ -76,6 +76,11 @@ def gen_cases(tier, seed):
         case = gen.rand_search_case(rng)
         if rw.is_empty(case["cls"]):
             continue
+        if intuniv.rng_for(seed, "C18/searched", i).random() < 0.12:
+            # a verification strategy without an enumeration of its own: using the specification
+            # makes it search with its pack (anything it remembers then takes part in equality)
+            case["pack"]["ver"] = "searched2"
+            case["pack"]["nest"] = 0
         case["schedule"] = {"mode": "drain", "rng_seed": rng.randrange(10 ** 6), "tree_k": 1, "perc": 1,
                             "smallest": False}
         case.update(id=produced, N=N[tier])
